@@ -43,7 +43,8 @@ TTrans ==
   \* is cut into chunks), and what is averaged is a probability
   /\ Chk("time_in_epoch_counts_the_transitions_of_the_epoch", Ev.tie = tcount)
   /\ Chk("acceptance_probability_fed_to_dual_averaging_is_a_probability",
-         FLe("0.0", Ev.acc) /\ FLe(Ev.acc, "1.0"))
+         \* (NUTS reports an average over the trajectory that exceeds 1 by float32 rounding: 1.0000001)
+         FLe("0.0", Ev.acc) /\ FLe(Ev.acc, "1.00001"))
   /\ IF IsAdapt(Ev.etype) /\ Hdr.tunes
      THEN Chk("adaptive_transition_is_da_step",
               Cl(Ev.post, DAStep(R(Ev.pre), Ev.acc, tcount, G)))
